@@ -1,8 +1,9 @@
 #!/bin/bash
 # Applies pairs of stored refactorings that touch different files and runs every rule: interactions between rewrites.
-# usage: run_variant_pairs.sh [max pairs]
+# usage: [REPO=<copy of /repo with .git>] run_variant_pairs.sh [max pairs]   (default REPO=/repo; a copy leaves /repo free)
 cd /verif
-[ -n "$(git -C /repo status --porcelain)" ] && { echo "/repo is not clean"; exit 2; }
+REPO=${REPO:-/repo}
+[ -n "$(git -C $REPO status --porcelain)" ] && { echo "/repo is not clean"; exit 2; }
 MAX=${1:-1000}
 n=0
 V=$(ls -d mutants/variants/R* | sort -V)
@@ -11,12 +12,12 @@ for a in $V; do for b in $V; do
   fa=$(grep '^diff --git' $a/patch.diff | awk '{print $3}' | sort -u); fb=$(grep '^diff --git' $b/patch.diff | awk '{print $3}' | sort -u)
   [ -n "$(comm -12 <(echo "$fa") <(echo "$fb"))" ] && continue
   n=$((n+1)); [ $n -gt $MAX ] && break 2
-  git -C /repo apply "$PWD/$a/patch.diff" && git -C /repo apply "$PWD/$b/patch.diff" || { git -C /repo checkout -- .; echo "$(basename $a)+$(basename $b): does not apply"; continue; }
-  out=$(${BIN:-./bin/gopkicheck} -prop ALL 2>&1)
-  git -C /repo apply -R "$PWD/$b/patch.diff" 2>/dev/null; git -C /repo apply -R "$PWD/$a/patch.diff" 2>/dev/null; git -C /repo checkout -- .
+  git -C $REPO apply "$PWD/$a/patch.diff" && git -C $REPO apply "$PWD/$b/patch.diff" || { git -C $REPO checkout -- .; echo "$(basename $a)+$(basename $b): does not apply"; continue; }
+  out=$(${BIN:-./bin/gopkicheck} -prop ALL -repo $REPO 2>&1)
+  git -C $REPO apply -R "$PWD/$b/patch.diff" 2>/dev/null; git -C $REPO apply -R "$PWD/$a/patch.diff" 2>/dev/null; git -C $REPO checkout -- .; git -C $REPO clean -fdq
   bad=$(echo "$out" | grep -E '^(VIOLATION|UNDECIDED) [A-Z]' | awk '{print $1" "$2}' | head -5 | tr '\n' ';')
   [ -n "$bad" ] && echo "$(basename $a)+$(basename $b): $bad"
 done; done
 echo "pairs run: $n"
-[ -n "$(git -C /repo status --porcelain)" ] && echo "WARNING /repo left dirty"
+[ -n "$(git -C $REPO status --porcelain)" ] && echo "WARNING /repo left dirty"
 exit 0
